@@ -3,6 +3,7 @@ import Pl.Check
 import Pl.Run
 import Pl.Run2
 import Pl.Hib2
+import Pl.Adjacent
 namespace PlDrv
 
 /-- the shared `merges` set of the one-shot merge processor (reset by `new`) -/
@@ -66,6 +67,9 @@ partial def loop (h : IO.FS.Stream) : IO Unit := do
     let times := (ts.splitOn ",").filterMap (·.toInt?)
     let plan := acts.filterMap parseAction
     IO.println (run2 items times n.toNat! plan).fmt
+  | "adj" :: acts =>
+    -- the adjacency premise of `isMerge_of_adjOK`, evaluated on a plan of the real planner
+    IO.println s!"{adjOK (acts.filterMap parseAction)}"
   | "run" :: its :: ts :: n :: acts =>
     let items := (its.splitOn ";").filterMap parseItem
     let times := (ts.splitOn ",").filterMap (·.toInt?)
